@@ -35,6 +35,15 @@ def run_one(args):
         res = json.loads(p.stdout[p.stdout.index('{'):])
     except Exception:
         res = {'error': p.stdout[-800:]}
+    # keep the results of checks that were not re-run this time (each entry is dated by the harness commit it ran at)
+    try:
+        old = json.load(open(os.path.join(d, 'result.json')))
+        merged = dict(old.get('props', {}))
+        merged.update(res.get('props', {}))
+        if 'props' in res:
+            res['props'] = merged
+    except Exception:
+        pass
     with open(os.path.join(d, 'result.json'), 'w') as f:
         json.dump(res, f, indent=1)
     return sid, res
